@@ -204,6 +204,16 @@ def execOp (line : String) : String :=
     | "rt" => withPkts rtLine
     | "reenc" => withHex reencLine
     | "relay" => withHex relayLine
+    | "reuse" => match args with
+        | [_, hb] => match unhex hb with
+          | some b =>
+            match subDec kind b with
+            | some s => s
+            | none => match kindOfName kind with
+              | some k => outStr (decKind k b) (join ∘ wBody)
+              | none => bad
+          | none => bad
+        | _ => "bad-op reuse"
     | "hold" =>
         let a := args.takeWhile (· ≠ "|")
         let b := (args.dropWhile (· ≠ "|")).drop 1
